@@ -467,6 +467,10 @@ def ledger(tr):
             dropped[v] = dropped.get(v, 0) + 1
         elif body[0] == "src" and body[1] == "exit" and body[2] == "some" and produced is not None:
             produced.append(int(body[3]))
+            if toks[0] == "own":
+                # into_seq_iter of the wrapper hands the wrapped iterator back: what the owner pulls from it is the
+                # owner's, whether or not the owner phase ends normally
+                moved[int(body[3])] = moved.get(int(body[3]), 0) + 1
         elif body[0] == "visit":
             v = int(body[2])
             moved[v] = moved.get(v, 0) + 1
@@ -479,7 +483,7 @@ def ledger(tr):
             elif r[0] == "chunk":
                 for x in r[4:]:
                     moved[int(x)] = moved.get(int(x), 0) + 1
-            elif r[0] == "seq":
+            elif r[0] == "seq" and produced is None:
                 for x in r[1:]:
                     moved[int(x)] = moved.get(int(x), 0) + 1
     return moved, dropped, produced
